@@ -64,7 +64,10 @@ def work(item):
     has_ecp = any('ecp_potentials' in el for el in b['elements'].values())
     zero_ecp_term = any(frac_d(x) == 0 for el in b['elements'].values() for p in el.get('ecp_potentials', []) for c in p['coefficients'] for x in c)
     maxl = max([l for el in b['elements'].values() for sh in el.get('electron_shells', []) for l in sh['angular_momentum']], default=0)
-    facts = dict(libmol_name_ok=libmol_name_ok, has_ecp=has_ecp, zero_ecp_term=zero_ecp_term, maxl_ge_7=maxl >= 7)
+    ecp_ls = [sorted(p['angular_momentum'][0] for p in el['ecp_potentials']) for el in b['elements'].values() if 'ecp_potentials' in el]
+    # the local potential is the one of the highest momentum; formats that do not record its momentum assume it is (highest other) + 1
+    ecp_not_contiguous = any(ls != list(range(len(ls))) for ls in ecp_ls)
+    facts = dict(libmol_name_ok=libmol_name_ok, has_ecp=has_ecp, zero_ecp_term=zero_ecp_term, maxl_ge_7=maxl >= 7, ecp_not_contiguous=ecp_not_contiguous)
     hdr = None
     try:
         hdr = api._header_string(b)
@@ -257,7 +260,7 @@ def run(ctx):
     R = Result('C03')
     items = [('%s/%s' % p, p, '%s-%d' % (p[0], ctx.seed)) for p in sample_pairs(ctx, ctx.n(34, 10 ** 6))]
     for i in range(ctx.n(70, 2500)):
-        g = genbasis.gen_basis(ctx.rng, kinds=ctx.rng.choice([None, ['highl', 'plain'], ['ecponly', 'ecp', 'plain'], ['pople', 'general']]))
+        g = genbasis.gen_basis(ctx.rng, kinds=ctx.rng.choice([None, ['highl', 'plain'], ['ecponly', 'ecp', 'plain'], ['pople', 'general'], ['ecpgap', 'ecpsingle', 'ecp', 'plain']]))
         items.append(('gen%d' % i, g, 'g%d-%d' % (i, ctx.seed)))
     pairs = []
     nw = []
